@@ -21,6 +21,9 @@ type serializer struct {
 	env   *quasigo.Env
 	pkg   *types.Package
 	names map[string]int
+	// fname != nil: calls of user functions are serialised by *name* (the number of FUser is the id fname gives to the
+	// symbol `qualifier.name`); binding the name to a function ID is then the business of the Coq model of the Env
+	fname func(key string) int
 }
 
 func newSerializer(info *types.Info, env *quasigo.Env, pkg *types.Package) *serializer {
@@ -238,6 +241,16 @@ func (s *serializer) call(call *ast.CallExpr) string {
 	}
 	if id, ok := quasigo.VerifLookupNative(s.env, qualifier, fn.Name()); ok {
 		return mk(fmt.Sprintf("(FNative %d %d)", id, variadic), recv)
+	}
+	if s.fname != nil {
+		if sig.Variadic() {
+			return mk("FUnresolved", recv)
+		}
+		res := "TVoid"
+		if sig.Results().Len() > 0 {
+			res = s.ty(sig.Results().At(0).Type())
+		}
+		return mk(fmt.Sprintf("(FUser %d %s)", s.fname(qualifier+"."+fn.Name()), res), recv)
 	}
 	if id, ok := quasigo.VerifLookupFunc(s.env, qualifier, fn.Name()); ok && !sig.Variadic() {
 		res := "TVoid"
